@@ -357,7 +357,10 @@ def stochastic_setup(draw, m, x_hi=40, t_max=10.0, target_events=120, hard_event
         try:
             r_fast = ir.reference_float(m, probe, 0.0, theta)["rates"]
             r_slow = ir.reference_float(m, probe, 0.0, [v * slow for v in theta])["rates"]
-            ok = all(abs(b) <= 1e-6 * abs(a) for a, b in zip(r_fast, r_slow))
+            # every rate must be exactly proportional to the parameters (constant, linear, mass-action templates): a saturating
+            # k*X/(1+a*X) or a decaying exponential changes regime when its coefficients shrink, and the bound that sizes
+            # the horizon no longer holds
+            ok = all(a > 0 and abs(b - slow * a) <= 1e-6 * slow * abs(a) for a, b in zip(r_fast, r_slow))
         except Exception:
             ok = False
         if ok:
